@@ -77,20 +77,26 @@ def _maybe_second_refinement(draw, ctx, nv, node, budget):
         budget[0] -= 1
 
 
-def _tree(draw, ctx, nv, depth, budget, extra=None):
+def _tree(draw, ctx, nv, depth, budget, extra=None, extra_empty=False, as_ref=True):
     """budget: mutable [remaining nodes]."""
     use_extra = extra is not None and chance(draw, 1, 2)
+    if extra_empty and not as_ref:
+        # (an ALTERNATIVE that joins a variable without any value is the empty-domain-beneath-a-disjunction shape of KF-05;
+        # only refinements join the empty variable here)
+        use_extra = False
     node = {"cond": _branch_cond(draw, ctx, nv, extra if use_extra else None), "ref": None, "alt": None,
             "extra": use_extra}
     budget[0] -= 1
     if depth > 0:
         if budget[0] > 0 and chance(draw, 1, 2):
-            node["ref"] = _tree(draw, ctx, nv, depth - 1, budget, extra)
+            node["ref"] = _tree(draw, ctx, nv, depth - 1, budget, extra, extra_empty, True)
             _maybe_second_refinement(draw, ctx, nv, node, budget)
         # a branch that joins the extra variable gets no alternative of its own: whether such an alternative applies
         # per base assignment or per value of the joined variable is not stated, so that shape is not generated
-        if budget[0] > 0 and not use_extra and chance(draw, 1, 2):
-            node["alt"] = _tree(draw, ctx, nv, depth - 1, budget, extra)
+        # (... unless the extra variable has no value at all: then the branch never applies and its alternative is tried for
+        # every assignment)
+        if budget[0] > 0 and (not use_extra or extra_empty) and chance(draw, 1, 2):
+            node["alt"] = _tree(draw, ctx, nv, depth - 1, budget, extra, extra_empty, False)
     return node
 
 
@@ -104,6 +110,9 @@ def _case(draw, tier):
     ctx = Ctx(cfg, recs, nv + (1 if extra is not None else 0))
     doms = [list(draw(st.permutations(list(range(n))))[:draw(st.integers(1, min(3, n)))])
             for _ in range(nv + (1 if extra is not None else 0))]
+    extra_empty = extra is not None and chance(draw, 1, 4)
+    if extra_empty:
+        doms[extra] = []           # the variable only some branches join has NO value: such a branch never applies
     vars_ = [{"dom": v, "decl": "let", "type": "Ent"} for v in range(len(doms))]
     # base condition: binds every rule variable on every true path
     if nv == 1:
@@ -118,10 +127,10 @@ def _case(draw, tier):
     root = {"cond": base, "ref": None, "alt": None, "extra": False}
     budget[0] -= 1
     if chance(draw, 2, 3):
-        root["ref"] = _tree(draw, ctx, nv, 2, budget, extra)
+        root["ref"] = _tree(draw, ctx, nv, 2, budget, extra, extra_empty, True)
         _maybe_second_refinement(draw, ctx, nv, root, budget)
     if budget[0] > 0 and chance(draw, 2, 3):
-        root["alt"] = _tree(draw, ctx, nv, 2, budget, extra)
+        root["alt"] = _tree(draw, ctx, nv, 2, budget, extra, extra_empty, False)
     abandon_first = draw(st.sampled_from([0, 0, 0, 1, 2, 3]))
     return {"abandon_first": abandon_first, "ents": recs, "doms": doms, "vars": vars_, "tree": root, "dom_kind": "list", "nv": nv, "extra": extra,
             "alt_first": draw(st.booleans()), "sibling_alts": draw(st.booleans()),
